@@ -511,4 +511,25 @@ def paraCell (p u v w : P3) : Cell3 :=
 /-- `(u × v) · w` -/
 def det3 (u v w : P3) : Rat := (u.cross v).dot w
 
+/-! ### decidable input conditions of the 3-D theorems (evaluated by the driver on every cell) -/
+
+def edgePairedB (cell : Cell3) : Bool :=
+  cell.all (fun f => decide (f.2 = 1 ∨ f.2 = -1)) && (dirEdges cell).isPerm ((dirEdges cell).map Prod.swap)
+
+def planarStarB (cell : Cell3) : Bool :=
+  cell.all (fun f => decide ((faceN f.1).dot (faceN f.1) ≠ 0) && (cycEdges f.1).all (fun e =>
+    decide (0 ≤ (subN (mean3 f.1) e).dot (faceN f.1)) &&
+    decide (P3.smul ((faceN f.1).dot (faceN f.1)) (subN (mean3 f.1) e)
+      = P3.smul ((subN (mean3 f.1) e).dot (faceN f.1)) (faceN f.1))))
+
+def nodesPlanarB (cell : Cell3) : Bool :=
+  cell.all (fun f => f.1.all (fun v => decide ((v.sub (mean3 f.1)).dot (faceN f.1) = 0)))
+
+def starAboutB (tc : P3) (cell : Cell3) : Bool :=
+  cell.all (fun f => decide (0 < f.2 * ((mean3 f.1).sub tc).dot (faceN f.1)))
+
+/-- closed surface of planar star-shaped non-degenerate faces, star-shaped about the code's centre -/
+def cellHypB (cell : Cell3) : Bool :=
+  !cell.isEmpty && edgePairedB cell && planarStarB cell && nodesPlanarB cell && starAboutB (tempCenter3 cell) cell
+
 end PorepyVerif.C19
